@@ -65,7 +65,8 @@ structure Resource where
   rdata : RData
   deriving Repr, DecidableEq
 
-/-- `dnsmsg.Header` (note: the Z bit of the wire header has no field). -/
+/-- `dnsmsg.Header`. `z` is the reserved bit 6 of the flag word (`Header.Zero`); it is the last
+    field and defaults to `false` so that headers built elsewhere need not mention it. -/
 structure Header where
   id : Nat
   response : Bool
@@ -77,6 +78,7 @@ structure Header where
   ad : Bool
   cd : Bool
   rcode : Nat
+  z : Bool := false
   deriving Repr, DecidableEq
 
 structure Msg where
@@ -263,7 +265,8 @@ def headerOfBits (id bits : Nat) : Header :=
     ra := testBit bits 7
     ad := testBit bits 5
     cd := testBit bits 4
-    rcode := bits % 16 }
+    rcode := bits % 16
+    z := testBit bits 6 }
 
 /-- `Msg.Unpack` (with `header.unpack`). -/
 def unpackMsg (msg : Bytes) : Res Msg := do
